@@ -339,6 +339,10 @@ func c02Stream(r *hx.Rand, tier string, n int, w *bufio.Writer) map[string]int {
 			algs = []string{"RS256", "HS256", "none", "PS256", "ES256", "EdDSA"}
 		case 4:
 			algs = []string{"ES512"}
+		case 5:
+			// an explicit allow-list that admits no asymmetric algorithm at all: nothing signed with a
+			// published key may be believed (and the list must not silently fall back to the defaults)
+			algs = hx.Pick(r, []string{"HS256"}, []string{"none"}, []string{"HS384", "none", "HS512"})
 		}
 		sub := "user-1"
 		issClaim := issuer
